@@ -313,15 +313,19 @@ class World:
 
 
 def timeline(run, rng, steps):
-    nsubs = rng.choice([1, 2, 3])
+    # a 'dense' timeline: one subscriber with up to four process ids per object, mostly confirmed, so that several
+    # notifications for one address are pending in the same instant
+    dense = rng.random() < 0.3
+    nsubs = 1 if dense else rng.choice([1, 2, 3])
+    procs = [1, 2, 3, 4] if dense else [1, 2]
     w = World(run, rng, nsubs, with_pc=rng.random() < 0.5)
     oids = sorted(w.objs)
     for k in range(steps):
         r = rng.random()
-        oid = rng.choice(oids)
+        oid = rng.choice(oids) if not (dense and rng.random() < 0.6) else oids[0]
         kind = w.objs[oid]["kind"]
         if r < 0.22:
-            ok = w.subscribe(rng.randrange(nsubs), rng.choice([1, 2]), oid, rng.random() < 0.5,
+            ok = w.subscribe(rng.randrange(nsubs), rng.choice(procs), oid if not dense else oids[0], rng.random() < (0.8 if dense else 0.5),
                              rng.choice([0, 0, 1, 5, 30, 60, 120, None]))
         elif r < 0.30:
             live = sorted(w.table)
@@ -329,7 +333,7 @@ def timeline(run, rng, steps):
                 i, p, o = rng.choice(live)
                 ok = w.cancel(i, p, o)
             else:
-                ok = w.cancel(rng.randrange(nsubs), rng.choice([1, 2]), oid)
+                ok = w.cancel(rng.randrange(nsubs), rng.choice(procs), oid)
         elif r < 0.62:
             cur = w.value(oid)
             if kind == "analog":
